@@ -26,7 +26,7 @@ theorem Steps.append {s0 b0 a s s1 s2 e1 e2} (h1 : Steps s0 b0 a s (s1, e1)) (h2
 
 theorem ext_iout_some {s s' : St} (hE : Ext s s') (i : Nat) (hi : i < s.items.length) (h : (s.iout i).isSome) :
     (s'.iout i).isSome := by
-  rw [(hE.2.2.2.2 i hi).2.2.2 h]; exact h
+  rw [(hE.2.2.2.2 i hi).2.2.2.1 h]; exact h
 
 /-- the part of `Rule` that does not depend on the item: the batch's error, or "not set" for a user batch -/
 def RuleB (s : St) (b0 : Nat) (o : Outc) : Prop :=
@@ -71,8 +71,8 @@ theorem leftovers_spec {s0 b0 a} (io : Outc) (L : List Nat) :
       · exact hall j hj
     · simp only [hc]
       have hn : s.iout i = none := by simpa using hc
-      have ⟨n1, io1, ev1, na1⟩ := completeItem_spec h i io false hi hn (fun _ => hR.rule i)
-      have ⟨st, hall⟩ := ih (completeItem s i io false).1 n1.mid
+      have ⟨n1, io1, ev1, na1⟩ := completeItem_spec h s.items.length i io false hi hn (fun _ => hR.rule i)
+      have ⟨st, hall⟩ := ih (completeItem s.items.length s i io false).1 n1.mid
         (fun j hj => by rw [n1.bi]; exact hL j (by simp [hj])) (hR.next n1)
       refine ⟨Steps.append ⟨n1, ev1, na1⟩ st, ?_⟩
       intro j hj
@@ -95,8 +95,8 @@ theorem setAllLoop_spec {s0 b0 a} (L : List Nat) :
       exact ih s h (fun j hj => hL j (by simp [hj]))
     · simp only [hc]
       have hn : s.iout i = none := by simpa using hc
-      have ⟨n1, _, ev1, na1⟩ := completeItem_spec h i (.val (s.payload i)) true hi hn (fun hf => by cases hf)
-      have st := ih (completeItem s i (.val (s.payload i)) true).1 n1.mid
+      have ⟨n1, _, ev1, na1⟩ := completeItem_spec h s.items.length i (.val (s.payload i)) true hi hn (fun hf => by cases hf)
+      have st := ih (completeItem s.items.length s i (.val (s.payload i)) true).1 n1.mid
         (fun j hj => by rw [n1.bi]; exact hL j (by simp [hj]))
       exact Steps.append ⟨n1, ev1, na1⟩ st
 
@@ -116,9 +116,9 @@ theorem debugFlush_spec {s0 b0 a} (L : List Nat) :
       exact ⟨Steps.nil h, by simp⟩
     · simp only [hc]
       have hn : s.iout i = none := by simpa using hc
-      have ⟨n1, io1, ev1, na1⟩ := completeItem_spec h i (.val (s.payload i)) false hi hn
+      have ⟨n1, io1, ev1, na1⟩ := completeItem_spec h s.items.length i (.val (s.payload i)) false hi hn
         (fun _ => Or.inr (Or.inr ⟨hk, rfl⟩))
-      have ⟨st, hall⟩ := ih (completeItem s i (.val (s.payload i)) false).1 n1.mid
+      have ⟨st, hall⟩ := ih (completeItem s.items.length s i (.val (s.payload i)) false).1 n1.mid
         (by rw [← n1.ext.1]; exact hk) (fun j hj => by rw [n1.bi]; exact hL j (by simp [hj]))
       refine ⟨Steps.append ⟨n1, ev1, na1⟩ st, ?_⟩
       intro hr j hj
@@ -141,7 +141,7 @@ theorem act1_spec {s0 b0 a s} (h : Mid s0 b0 a s) (x : Act) :
       · simp only [hc, if_true]; exact Steps.nil h
       · simp only [hc]
         have hn : s.iout i = none := by simpa using hc
-        have ⟨n1, _, ev1, na1⟩ := completeItem_spec h i (.val v) true hi hn (fun hf => by cases hf)
+        have ⟨n1, _, ev1, na1⟩ := completeItem_spec h s.items.length i (.val v) true hi hn (fun hf => by cases hf)
         exact ⟨n1, ev1, na1⟩
   | setError k e =>
     simp only [act1]
@@ -153,7 +153,7 @@ theorem act1_spec {s0 b0 a s} (h : Mid s0 b0 a s) (x : Act) :
       · simp only [hc, if_true]; exact Steps.nil h
       · simp only [hc]
         have hn : s.iout i = none := by simpa using hc
-        have ⟨n1, _, ev1, na1⟩ := completeItem_spec h i (.err (.user e)) true hi hn (fun hf => by cases hf)
+        have ⟨n1, _, ev1, na1⟩ := completeItem_spec h s.items.length i (.err (.user e)) true hi hn (fun hf => by cases hf)
         exact ⟨n1, ev1, na1⟩
   | setAll =>
     simp only [act1]
